@@ -232,13 +232,15 @@ func (e *Engine) paramNonNil(f *ssa.Function, p *ssa.Parameter) bool {
 // coinductively).
 func (e *Engine) SolveParamNil(scope []*ssa.Function) {
 	e.Scope = map[*ssa.Function]bool{}
+	e.ctxFas = map[*ssa.Function]*FuncAn{} // entry facts depend on the scope
+	e.paramMaybeNil = map[*ssa.Parameter]string{}
 	for _, f := range scope {
 		e.Scope[f] = true
 	}
 	for changed := true; changed; {
 		changed = false
 		for _, f := range scope {
-			a := e.Analyze(f)
+			a := e.AnalyzeCtx(f)
 			if a == nil {
 				continue
 			}
